@@ -123,6 +123,16 @@ def cases(draw, tier):
             pair.reverse()
         ir["ops"].append({"path": "/zzboth", "method": "post", "opid": "zzSendBoth", "tags": [], "summary": "", "security": False, "params": [],
                           "body": {"required": True, "content": pair, "same_model": True}, "responses": [[200, None]]})
+    objs_ = [n for n, sc in ir["schemas"] if sc["k"] == "object"]
+    if objs_ and draw(st.integers(0, 5)) == 0:
+        # a multipart body whose parts are models (required and optional), a model-or-integer union, a file and a scalar: optional
+        # parts are left out in some calls
+        ref_ = {"k": "ref", "name": draw(st.sampled_from(objs_))}
+        parts = [["needModel", ref_, True], ["maybeModel", dict(ref_), False], ["maybeEither", {"k": "union", "members": [dict(ref_), {"k": "int"}], "how": "oneOf"}, False],
+                 ["upload", {"k": "binary"}, draw(st.booleans())], ["note", {"k": "str"}, False]]
+        ir["ops"].append({"path": "/zzparts", "method": "post", "opid": "zzSendParts", "tags": [], "summary": "", "security": False, "params": [],
+                          "body": {"required": True, "content": [["multipart/form-data", {"k": "object", "props": parts, "addl": False, "allOf": []}]]},
+                          "responses": [[200, None]]})
     comps = docs.comp_map(ir)
     # an operation-level parameter shadowing a path-item-level one of a different kind
     for op in ir["ops"]:
